@@ -52,6 +52,11 @@ type Rule struct {
 type ServerSpec struct {
 	Kind  string `json:"kind"` // normal | refuse | blackhole | noread | closeOnAccept
 	Rules []Rule `json:"rules,omitempty"`
+	// requests of the callers with tag HoldFromTag..HoldToTag are answered after HoldMs (whatever their
+	// arrival ordinal: keep-alive pings are requests too and would shift ordinal rules)
+	HoldFromTag int `json:"hold_from_tag,omitempty"`
+	HoldToTag   int `json:"hold_to_tag,omitempty"`
+	HoldMs      int `json:"hold_ms,omitempty"`
 }
 
 type CallSpec struct {
@@ -81,6 +86,13 @@ type ClientConf struct {
 	WriteTimeoutMs int `json:"write_timeout_ms"` // -1: leave the default; 0 is meaningful (no timer)
 	DialTimeoutMs  int `json:"dial_timeout_ms,omitempty"`
 	ProxyTimeoutMs int `json:"proxy_timeout_ms,omitempty"` // TarsSetTimeout
+	// keep-alive: AdapterProxy.autoKeepAlive ticks every ClientIdleTimeout/2 once a proxy with a push
+	// callback has made a call (PushCallback); endpointManager.checkStatus (every second) calls doKeepAlive
+	// when KeepAliveInterval > 0. Each doKeepAlive that is not refused takes a queueLen slot for a one-way
+	// tars_ping and gives it back.
+	IdleTimeoutMs       int  `json:"idle_timeout_ms,omitempty"`
+	KeepAliveIntervalMs int  `json:"keep_alive_interval_ms,omitempty"`
+	PushCallback        bool `json:"push_callback,omitempty"`
 }
 
 type GenSpec struct {
@@ -663,6 +675,9 @@ func (fs *fakeServer) serve(c net.Conn) {
 		}
 		q := pendingReq{id: req.IRequestId, tag: tag, body: keep, conn: c}
 		k, ru := fs.ruleFor(ord)
+		if fs.spec.HoldMs > 0 && tag >= fs.spec.HoldFromTag && tag <= fs.spec.HoldToTag {
+			ru = Rule{Mode: "delay", DelayMs: fs.spec.HoldMs}
+		}
 		switch ru.Mode {
 		case "echo", "":
 			fs.echo(c, q)
@@ -727,6 +742,16 @@ func (r *runner) counters(wave int) {
 			return
 		}
 		cs := tars.VerifCallState(sp)
+		if r.sc.Client.PushCallback || r.sc.Client.KeepAliveIntervalMs > 0 {
+			// a keep-alive tick holds a slot for the few microseconds of its Send: read several times and keep
+			// the smallest value (a leaked slot stays in every reading)
+			for k := 0; k < 4; k++ {
+				time.Sleep(2 * time.Millisecond)
+				if c2 := tars.VerifCallState(sp); c2.QueueLen < cs.QueueLen {
+					cs.QueueLen = c2.QueueLen
+				}
+			}
+		}
 		qs = append(qs, cs.QueueLen)
 		if k == 0 {
 			c = Counters{AfterWave: wave, QueueLen: cs.QueueLen, InvokeNum: cs.InvokeNum, Pending: cs.Pending, Adapters: cs.Adapters, MsgID: tars.VerifGetMsgID()}
@@ -850,6 +875,12 @@ func RunChild(sc *Scenario) *Result {
 	if cl.DialTimeoutMs > 0 {
 		comm.Client.ClientDialTimeout = time.Duration(cl.DialTimeoutMs) * time.Millisecond
 	}
+	if cl.IdleTimeoutMs > 0 {
+		comm.Client.ClientIdleTimeout = time.Duration(cl.IdleTimeoutMs) * time.Millisecond
+	}
+	if cl.KeepAliveIntervalMs > 0 {
+		comm.Client.KeepAliveInterval = cl.KeepAliveIntervalMs
+	}
 	var servers []*fakeServer
 	var eps []string
 	for i, ss := range sc.Servers {
@@ -876,6 +907,11 @@ func RunChild(sc *Scenario) *Result {
 		comm.StringToProxy("App.Server.Obj@"+strings.Join(eps, ":"), q)
 		if cl.ProxyTimeoutMs > 0 {
 			q.s.TarsSetTimeout(cl.ProxyTimeoutMs)
+		}
+		if cl.PushCallback {
+			if sp, ok := q.s.(*tars.ServantProxy); ok {
+				sp.SetPushCallback(func([]byte) {})
+			}
 		}
 		r.prxs = append(r.prxs, q)
 	}
